@@ -15,7 +15,8 @@ def file_lines(d, shape, n):
         extras = []
         tag = ["t%d" % i, "u%d" % i]            # multi-valued key on every line: exhibits 'repeated keys'
         if shape == "same":
-            items = [("ID", [fid]), ("Name", ["nm%d" % i]), ("tag", tag)]
+            # values with a literal '+', and (unreserved, hence raw) Unicode line/paragraph separators
+            items = [("ID", [fid]), ("Name", ["nm%d" % i if i else "nm+0\u2028x\x85y"]), ("tag", tag)]
         elif shape == "late":
             # keys: previously seen keys in first-seen order, then new keys
             # late keys are first seen in NON-alphabetical order (note, late2, a_last)
@@ -41,6 +42,8 @@ def file_lines(d, shape, n):
                 cols[3] = "."            # only one of the two coordinates missing
             if i % 6 == 5:
                 cols[4] = "."
+            if i % 6 == 3:
+                cols[3], cols[4] = "9007199254740993", "9223372036854775807"      # integers a double cannot hold
             if i % 3 == 2:
                 cols[5], cols[7] = "0.9", "2"
             extras = [[], ["e1"], ["e1", "e 2"], ["e1", ""], [""], ["", "x"], ["7"], ["true"], ['"q"'], ["[1,2]"], ["null"]][i % 11]   # incl. empty / JSON-looking
